@@ -343,6 +343,14 @@ theorem lookup_flush_persistedFirst :
     (kexecG (kstepPF .noRecheck) { store := {}, ctr := 0 } lookupFlushSchedule).threads = [⟨0, 7, .done 0⟩, ⟨0, 7, .done 1⟩] := by
   decide
 
+/-- … but with the `recheckLocked` createValue (what /repo has since fix 79fc5a0) the swapped order is
+harmless on this schedule: the second caller misses twice, and createValue — looking again under the write
+lock in the memory maps and in the CURRENT snapshot — finds the name. (Seeded change c09-2 is masked by
+the repair: its own demo passes, and this check rightly reports no violation for it.) -/
+theorem lookup_flush_persistedFirst_locked :
+    (kexecG (kstepPF .recheckLocked) { store := {}, ctr := 0 } lookupFlushSchedule).threads = [⟨0, 7, .done 0⟩, ⟨0, 7, .done 0⟩] := by
+  decide
+
 /-- … while lindb's order finds the name on the same schedule -/
 theorem lookup_flush_memFirst :
     (kexec .noRecheck { store := {}, ctr := 0 } lookupFlushSchedule).threads = [⟨0, 7, .done 0⟩, ⟨0, 7, .done 0⟩] := by
